@@ -18,7 +18,7 @@ BASES = ["http://h.example", "http://h.example/", "http://h.example/a", "http://
          "http://h.example/a//b", "http://h.example//", "http://u:p@h.example:81/x/.hidden?q=1#f", "//h.example/n/m.", "/", "/a", "/a/b", "/a/", "a", "a/b", "a/", "", "/a%20b.txt",
          "/%C3%A9/%E2%82%AC.x", "mailto:x/y.z", "file:///a/b..c", "/a..b", "/.bashrc", "/a.", "/a/..b.c", "http://h.example/%2E%2E/x",
          # names that repeat their own suffix text, or whose stem contains it
-         "http://h.example/dl/photo.jpg.jpg", "/a.tar.gz.tar", "/my.txtfile.txt", "/v.1.1", "http://h.example/x.x.x", "/a.b/a.b.b", "/.x.x"]
+         "http://h.example/dl/photo.jpg.jpg", "/a.%20b", "http://h.example/%D1%84.%D1%82%D1%85%D1%82", "/q.100%25", "/e.%3Cx%3E", "http://h.example/n.b%2Fc", "/x.%C3%A9%20", "/a.tar.gz.tar", "/my.txtfile.txt", "/v.1.1", "http://h.example/x.x.x", "/a.b/a.b.b", "/.x.x"]
 
 
 def parts_norm(parts):
@@ -118,7 +118,7 @@ CHECKS = {"laws": check_laws}
 
 
 def base_strategy():
-    seg = st.sampled_from(["a", "b.txt", "c.tar.gz", "photo.jpg.jpg", "v.1.1", "my.txtfile.txt", "x.x.x", "", "%2F", "a%2Fb", "%25", "e%20f", "é", ".hidden", "x.", "..y", "a..b", "%C3%A9.%E2%82%AC", "+", "a:b", "@", "a;b=c"])
+    seg = st.sampled_from(["a", "b.txt", "c.tar.gz", "photo.jpg.jpg", "v.1.1", "a.%20b", "q.100%25", "f.%D1%82%D1%85%D1%82", "my.txtfile.txt", "x.x.x", "", "%2F", "a%2Fb", "%25", "e%20f", "é", ".hidden", "x.", "..y", "a..b", "%C3%A9.%E2%82%AC", "+", "a:b", "@", "a;b=c"])
     path = st.lists(seg, max_size=4)
     pre = st.sampled_from(["http://h.example", "http://u@h.example:81", "//h.example", "", "", "mailto:", "file://", "x-y:"])
 
